@@ -709,6 +709,10 @@ def parse_fn_at(toks, i, what):
     return dict(name=name, generics=generics, recv=recv, params=params, ret=ret, body=body, what=what)
 
 
+# the only cfg an impl carries in the audited sources (`alloc` is implied by the default feature `std`)
+OK_IMPL_CFG = ('cfg(feature="alloc")',)
+
+
 def find_impls(toks, pred):
     """[(header text, open, close)] of the top-level `impl .. { }` whose header text satisfies pred"""
     out = []
@@ -721,6 +725,9 @@ def find_impls(toks, pred):
             hdr = text_of(toks[i:j])
             c = match_close(toks, j)
             if pred(hdr):
+                for atxt in attrs_before(toks, i, 0):
+                    if atxt.startswith('cfg') and atxt.replace(' ', '') not in OK_IMPL_CFG:
+                        err('`impl %s` is under #[%s]' % (hdr[:80], atxt))
                 out.append((hdr, j, c))
             i = c + 1
             continue
